@@ -360,6 +360,7 @@ func runC21(c *an.Ctx) {
 	}
 	if dt := cm(c, "R2", "Coordinate", "DistanceTo"); dt != nil {
 		raw := "(*Coordinate).rawDistanceTo($0,$1)"
+		nRaw, nAdj := 0, 0
 		for _, r := range an.Returns(dt) {
 			v := an.ResultValues(r)[0]
 			conv, _ := v.(*ssa.Convert)
@@ -372,28 +373,34 @@ func runC21(c *an.Ctx) {
 				continue
 			}
 			c.Add(true, "R2", "DistanceTo:seconds-to-ns", r, "the result is the selected distance in seconds times 1e9", "value shape")
-			phi, isPhi := mulv.X.(*ssa.Phi)
-			if !isPhi {
-				c.Add(false, "R2", "DistanceTo:selection", r, "the distance is selected between raw and adjusted", "")
-				continue
+			// the selection is a phi of the two candidates, or one return per candidate
+			type alt struct {
+				v  ssa.Value
+				at ssa.Instruction
 			}
-			nRaw, nAdj := 0, 0
-			for i, e := range phi.Edges {
-				adds := flattenAdd(e)
+			var alts []alt
+			if phi, isPhi := mulv.X.(*ssa.Phi); isPhi {
+				for i, e := range phi.Edges {
+					pred := phi.Block().Preds[i]
+					alts = append(alts, alt{e, pred.Instrs[len(pred.Instrs)-1]})
+				}
+			} else {
+				alts = append(alts, alt{mulv.X, r})
+			}
+			for _, a := range alts {
+				adds := flattenAdd(a.v)
 				switch {
 				case sameMultiset(adds, []string{raw}):
 					nRaw++
 				case sameMultiset(adds, []string{raw, "$0.Adjustment", "$1.Adjustment"}):
 					nAdj++
-					pred := phi.Block().Preds[i]
-					last := pred.Instrs[len(pred.Instrs)-1]
-					c.Add(an.GuardedBy(dt, last, an.Cmp{L: an.Path(e), Op: ">", R: "c:0"}), "R2", "DistanceTo:adjusted-only-if-positive", r, "the adjusted distance is used only when it is > 0", "edge dominance on the phi's incoming edge")
+					c.Add(an.GuardedBy(dt, a.at, an.Cmp{L: an.Path(a.v), Op: ">", R: "c:0"}), "R2", "DistanceTo:adjusted-only-if-positive", r, "the adjusted distance is used only when it is > 0", "edge dominance on the way the adjusted value is selected")
 				default:
 					c.Add(false, "R3", "DistanceTo:addends", r, "unexpected addends "+strings.Join(adds, " + "), "")
 				}
 			}
-			c.Add(nRaw == 1 && nAdj == 1, "R3", "DistanceTo:adjusted-addends", r, "adjusted distance = raw + both adjustments (multiset {raw, a.Adjustment, b.Adjustment}); raw is the fallback", "addend multiset")
 		}
+		c.Add(nRaw == 1 && nAdj == 1, "R3", "DistanceTo:adjusted-addends", dt, "adjusted distance = raw + both adjustments (multiset {raw, a.Adjustment, b.Adjustment}); raw is the fallback", "addend multiset")
 	}
 	if rd := cm(c, "R3", "Coordinate", "rawDistanceTo"); rd != nil {
 		for _, r := range an.Returns(rd) {
